@@ -191,6 +191,7 @@ fn dispatch(cmd: &str, a: &[&str]) -> Result<Vec<String>, String> {
                 "Base64::convert_number_to_base64_char" => format!("{:?}", crate::core::base64::Base64::convert_number_to_base64_char(*raw.get(0).unwrap_or(&0)).is_ok()),
                 "Header::parse_header" => format!("{:?}", Header::parse_header(&text).is_ok()),
                 "ContentDisposition::parse" => format!("{:?}", crate::header::content_disposition::ContentDisposition::parse(&text).is_ok()),
+                "Range::parse_range_in_content_range" => format!("{:?}", crate::range::Range::parse_range_in_content_range(ustr(a[2]).parse::<u64>().unwrap_or(0), &text).is_ok()),
                 "Range::_parse_raw_content_range_header_value" => format!("{:?}", crate::range::Range::_parse_raw_content_range_header_value(&text).is_ok()),
                 "UrlPath::extract_parts_from_pattern" => format!("{:?}", crate::url::path::UrlPath::extract_parts_from_pattern(&text).is_ok()),
                 "URL::parse" => format!("{:?}", crate::url::URL::parse(&text).is_ok()),
